@@ -19,6 +19,9 @@ def _t(what):
 
 
 CLAIMED = {
+    "C05": (_t("quantise with concrete step lists and symbolic ticks: grid membership, displacement (by message identity), pairing, overlap, event and survival clauses."), "4 C05"),
+    "C06": (_t("quantise_note_lengths with concrete value lists, extension on/off and symbolic onsets/durations/gaps: allowed durations, fixed onsets, closest fitting value, removal iff nothing fits."), "4 C06"),
+    "C16": (_t("one public operation on either side after every derivation route (copy at every level, split, bar splitting); value snapshots through both raw views."), "4 C16"),
     "C07": (_t("normalise on every message sequence up to the length bound with symbolic waits, pitches, channels, signatures and probe tick."), "4 C07"),
     "C08": (_t("split with symbolic capacities, waits, pitches, channels and probe tick; piano-roll, duration, event and aliasing clauses."), "4 C08"),
     "C10": (_t("Bar construction with symbolic waits (shorter/equal/longer than capacity) and symbolic signature events."), "4 C10"),
